@@ -101,6 +101,11 @@ func (s *Sim) lanesFrom(chain int, kinds ...string) []*Lane {
 
 func (s *Sim) opSend(pr Profile) string {
 	l := s.Lanes[s.R.Intn(len(s.Lanes))]
+	if s.preferV2 && s.R.Bool() {
+		if v2 := s.lanesFrom(s.R.Intn(len(s.Ch)), "v2"); len(v2) > 0 {
+			l = v2[s.R.Intn(len(v2))]
+		}
+	}
 	side := s.R.Intn(2)
 	src, dst := l.Ends[side].Chain, l.Ends[1-side].Chain
 	acct := s.R.Intn(5)
